@@ -49,14 +49,15 @@ def jumpRequested (ro : Rollout) (s : Sub) : Bool :=
   let n : Int := ro.steps.length
   decide (s.nextIdx ≠ nextBatchIndex n s.curIdx ∧ s.nextIdx > 0 ∧ s.nextIdx ≤ n)
 
-/-- **C03.ii** — `StepTrafficRouting` of a step is entered only after that step's pods were reported
-    ready: from `StepUpgrade` when the BatchRelease says so, or by a jump / plan change to a step
-    with the same replicas taken from a sub-state in which the current step's pods are ready. -/
+/-- **C03.ii / C02.i** — `StepTrafficRouting` of a step (or, on the full-replica bypass and on steps without
+    traffic, `StepMetricsAnalysis`, the sub-state that follows it) is entered only after that step's pods
+    were reported ready: from `StepUpgrade` when the BatchRelease says so, or by a jump / plan change to a
+    step with the same replicas taken from a sub-state in which the current step's pods are ready. -/
 def enterRoutingGated (w : World) (r : StepResult) : Bool :=
   match w.ro.sub, r.w.ro.sub with
   | some s, some s' =>
-    if inRollingNow w.ro ∧ r.w.ro.reason = .inRolling ∧ s'.state = .trafficRouting ∧
-       (s.state ≠ .trafficRouting ∨ s'.curIdx ≠ s.curIdx) then
+    if inRollingNow w.ro ∧ r.w.ro.reason = .inRolling ∧ (s'.state = .trafficRouting ∨ s'.state = .metricsAnalysis) ∧
+       (s.state ≠ s'.state ∨ s'.curIdx ≠ s.curIdx) then
       ((s.state = .upgrade || s.state = .init) && decide (s'.curIdx = s.curIdx) && upgradeDoneObs w { s with nextIdx := s'.nextIdx }) ||
       podsReady s.state
     else true
@@ -162,6 +163,7 @@ def fullStepUnpinsFirst (w : World) (r : StepResult) : Bool :=
 
 def stepOracles (w : World) (r : StepResult) : List (String × Bool) :=
   [("C03.enter_routing_gated", enterRoutingGated w r),
+   ("C02.pods_before_next_state", enterRoutingGated w r),
    ("C02.advance_gated", advanceGated w r),
    ("C02.paused_no_progress", pausedNoProgress w r),
    ("C02.ready_gated", readyGated w r),
